@@ -226,6 +226,29 @@ def call_package(self, fi, pos, kw, self_term, self_cls, node, fr, star=None, ds
     if ev is not None:
         ev.data['ret'] = ret
         ev.data['inlined'] = True
+    # arguments are passed by reference: what the callee stored INTO a parameter (item stores, in-place operations --
+    # not rebinding of the name) is visible through the caller's variable afterwards
+    if isinstance(node, ast.Call) and f2.final_env is not None:
+        rebound = set()
+        for n_ in ast.walk(fi.node):
+            if isinstance(n_, ast.Assign):
+                for t_ in n_.targets:
+                    for x_ in ([t_] if isinstance(t_, ast.Name) else (t_.elts if isinstance(t_, (ast.Tuple, ast.List)) else [])):
+                        if isinstance(x_, ast.Name):
+                            rebound.add(x_.id)
+            elif isinstance(n_, (ast.For,)) :
+                for x_ in ast.walk(n_.target):
+                    if isinstance(x_, ast.Name):
+                        rebound.add(x_.id)
+        formals = fi.all_params()[1 if is_method else 0:]
+        pairs = [(formals[i_], a_) for i_, a_ in enumerate(node.args) if i_ < len(formals) and not isinstance(a_, ast.Starred)]
+        pairs += [(k_.arg, k_.value) for k_ in node.keywords if k_.arg in formals]
+        for p_, a_ in pairs:
+            if p_ in rebound or not isinstance(a_, (ast.Name,)):
+                continue
+            newv = f2.final_env.get(p_)
+            if newv is not None and p_ in bound and newv.key != bound[p_].key:
+                self._rebind(a_, newv, fr)
     # exception propagation: the caller continues only on the paths on which the callee returns
     okc = T.mk_or([c for c, _ in f2.returns] + [live])
     if okc.key != TRUE.key:
